@@ -267,7 +267,11 @@ func (r *Resolver) ResolveUnionEdges(ctx context.Context, req *Request, edges []
 	for _, evaluation := range evaluations {
 		pool.Go(func() error {
 			res, err := r.ResolveEdge(ctx, req, evaluation.edge, visited)
-			if err == nil && ctx.Err() == nil {
+			// A negative answer computed against a shared visited set only says that nothing NEW was found
+			// (objects claimed by other branches of the same traversal are skipped): it is not the
+			// edge's answer and must not be served to later requests.
+			relative := visited != nil && (evaluation.edge.IsPartOfTupleCycle() || evaluation.edge.GetRecursiveRelation() != "")
+			if err == nil && ctx.Err() == nil && (res.GetAllowed() || !relative) {
 				entry := &ResponseCacheEntry{Res: res, LastModified: time.Now()}
 				r.cache.Set(evaluation.id, entry, r.cacheTTL)
 			}
@@ -559,7 +563,8 @@ func (r *Resolver) ResolveRecursive(ctx context.Context, req *Request, edge *aut
 			res, err = nil, ErrPanicRequest
 		}
 
-		if err == nil && ctx.Err() == nil {
+		// see ResolveUnionEdges: a negative answer relative to a shared visited set is not cached
+		if err == nil && ctx.Err() == nil && (res.GetAllowed() || visited == nil) {
 			entry := &ResponseCacheEntry{Res: res, LastModified: time.Now()}
 			r.cache.Set(cacheKey, entry, r.cacheTTL)
 		}
